@@ -3,7 +3,7 @@ dependency on /repo, no source hooks).  Harness source is generated per run; eve
 is re-run with concrete playback, decoded, and replayed natively before anything is reported."""
 import os, re, shutil, subprocess, time, struct, math
 from .inds import IND
-from .framework import fam_result, WORK
+from .framework import fam_result, WORK, VERIF
 from . import native
 
 PRELUDE = r'''
@@ -197,9 +197,9 @@ def write_project(prop, harnesses):
                 "[lints.rust]\nunexpected_cfgs = { level = \"allow\", check-cfg = ['cfg(kani)'] }\n")
     with open(os.path.join(d, '.cargo', 'config.toml'), 'w') as f:
         f.write('[net]\noffline = true\n')
-    lock = '/verif/replay/Cargo.lock' if os.path.exists('/verif/replay/Cargo.lock') else '/repo/Cargo.lock'
+    lock = os.path.join(VERIF, 'replay', 'Cargo.lock') if os.path.exists(os.path.join(VERIF, 'replay', 'Cargo.lock')) else '/repo/Cargo.lock'
     shutil.copy(lock, os.path.join(d, 'Cargo.lock'))
-    src = '#![allow(unused, non_snake_case, clippy::all)]\n' + open('/verif/kani/tokser.rs').read() + PRELUDE + '\n'.join(h.source() for h in harnesses) + '}\n'
+    src = '#![allow(unused, non_snake_case, clippy::all)]\n' + open(os.path.join(VERIF, 'kani', 'tokser.rs')).read() + PRELUDE + '\n'.join(h.source() for h in harnesses) + '}\n'
     p = os.path.join(d, 'src', 'lib.rs')
     old = open(p).read() if os.path.exists(p) else None
     if old != src:
